@@ -62,7 +62,7 @@ CLAIMS = {
               'path enumeration (exactly-once) + origin tracking + type-tag evaluation of setter closures',
               'DESIGN.md 5 C10'),
     'C11': _c('Structural clauses only: error item becomes the result (full drain), whole *args through the flattener, delegation table '
-              'name->statistics function, fnmatch roles and a constant table of wildcard criteria (whole cell, ? and *, line breaks), extremum seed, index alignment, empty selection exits. The numeric headline '
+              'name->statistics function, fnmatch roles and a constant table of wildcard criteria (whole cell, ? and *, line breaks), extremum seed, index alignment, items are the values the references were given (C10.R5), the catch-all of parse() covers every exception (C01.R1), empty selection exits. The numeric headline '
               '(aggregate = textbook statistic on all lists) is NOT decided.',
               'delegation-table agreement + role/dataflow rules + summary-list abstract interpretation',
               'DESIGN.md 5 C11'),
@@ -79,12 +79,12 @@ CLAIMS = {
               'finite-quotient evaluation + table agreement + guard dominance',
               'DESIGN.md 5 C14'),
     'C15': _c('Structural clauses only: no negative-zero slice, negative counts rejected, SUBSTITUTE unchanged-exit independent of the '
-              'replacement, a find() position is tested for not-found before it bounds a slice, the k-th occurrence through find()/split() on instance numbers 1..3, no identity comparison of computed numbers or texts, tuple rows flattened like lists, TRIM removes spaces only (constant table), joins over all flattened items in order. String-value algebra (idempotence etc.) NOT decided.',
+              'replacement, a find() position is tested for not-found before it bounds a slice, the k-th occurrence through find()/split() on instance numbers 1..3 and on a constant table (whole-valued float instance numbers included), no identity comparison of computed numbers or texts, tuple rows flattened like lists, TRIM removes spaces only (constant table), joins over all flattened items in order. String-value algebra (idempotence etc.) NOT decided.',
               'guard dominance with interval facts + path-condition dependence + dataflow roles',
               'DESIGN.md 5 C15'),
     'C16': _c('Structural clauses only: delegation table name->math function, coercion+error guard dominates every use (sibling rule), '
               'ATAN2 origin guard and argument roles, inclusive random range, PV closed form satisfies the annuity equation as a '
-              'polynomial identity, a complex power is never returned, an empty argument in the middle of PV keeps the later ones in place, shared text-to-number coercion. Floating-point accuracy NOT decided.',
+              'polynomial identity, a complex power is never returned, RANDBETWEEN draws from the inclusive range [a, b] (linear forms), an empty argument in the middle of PV keeps the later ones in place, shared text-to-number coercion. Floating-point accuracy NOT decided.',
               'delegation-table agreement + guard dominance + polynomial normal form identity',
               'DESIGN.md 5 C16'),
     'C17': _c('Structural clauses only: documented domains enforced by dominating guards (interval facts), termination of loops, '
@@ -104,7 +104,7 @@ CLAIMS = {
     'C20': _c('Structural necessary conditions over all histories: delivery over an order-preserving snapshot to every listener with '
               '(*args, **ctx); on() appends unconditionally; once-wrapper unsubscribes before calling, is found by off(), registered via '
               'on(); off() filter equals the specification on all 8 atom valuations and keeps order; off(name) drops the key; storage keyed '
-              'by name only; no list resized inside a loop over itself; off() edits the storage only after looking through the listeners; paired bookkeeping around the delivery restored on every exit; twelve scripted on/once/off/emit histories with opaque callbacks, run on the abstract emitter, give exactly the prescribed calls. Full trace semantics of arbitrary interleavings NOT decided (model-checking family).',
+              'by name only; no list resized inside a loop over itself; off() edits the storage only after looking through the listeners; paired bookkeeping around the delivery restored on every exit; thirteen scripted on/once/off/emit histories with opaque callbacks, run on the abstract emitter, give exactly the prescribed calls. Full trace semantics of arbitrary interleavings NOT decided (model-checking family).',
               'ast pattern rules + path enumeration (ordering/exactly-once) + boolean truth-table evaluation of the filter',
               'DESIGN.md 5 C20'),
 }
